@@ -92,6 +92,11 @@ CHECKS = {
         text="The only nondeterminism reachable from the interpreter is Go map iteration order, so the harness takes ownership of it: a go build -overlay of runtime/map.go (generated by tools/rtseam.sh, anchors verified) turns every map-iteration start into an environment choice point. For 19 map-consuming templates x maps of 2,3,4,8,12 entries x insertion orders (all n! for n<=4, shifts and reversal beyond), a deviation-bounded depth-first search runs the real render under every choice vector with <=1 (quick) / <=3 (thorough) non-default iteration starts; every execution must produce the canonical output. Independently every template of a ~400-template pool goes through 6 entry points, 3 re-renders of one parsed template, a fresh engine and rebuilt bindings, two fresh processes must produce identical digests of the whole pool, and (thorough) the command-line tool is run as a sub-process.",
         note="Environment automaton = rotations of bucket slot order x hash-seed-pinned bucket choice; maps above 13 entries not enumerated. Without the seam (other Go version) the check exits 0 with exhaustive:false.",
         tech="deviation-bounded DFS over environment answers (Go map-iteration start) on the real code via a runtime overlay, plus entry-point/process differential"),
+    "C18": dict(
+        cat="model_checking", ref="4/C18",
+        text="One logical binding environment (ints, floats, strings, bool, nil, flat/nested/empty lists, maps, list of maps; ~60 value-tree nodes) is realised in Go representations chosen independently at every node (numeric width, Drop by value or by pointer, pointer, typed slice, fixed array, typed map, ordered YAML map, []byte) and rendered through 28 templates that use each binding only in the positions the statement names; exploration is deviation-bounded: every assignment with <=1 (quick) / <=2 (thorough) non-default nodes among those a template uses. The oracle is differential - the output of the all-generic assignment - so nothing beyond the statement's position list can be demanded.",
+        note="[]byte only printed or as string-filter input; MapSlice only for lookup and size; pointers only at top level or as map values reached by property lookup.",
+        tech="deviation-bounded exhaustive enumeration of representation assignments over a value tree with a differential oracle"),
 }
 
 NOT_YET = "check not built yet (work in progress; see DESIGN.md section 7 build order)"
